@@ -30,15 +30,16 @@ type feExpect struct {
 }
 
 type genCase struct {
-	T     string     `json:"t"`
-	Kind  string     `json:"kind"`
-	Expr  *Expr      `json:"expr"`
-	List  []item     `json:"list"`
-	Fe    []feExpect `json:"fe"`
-	Nil   bool       `json:"nil"`
-	Cc    []call     `json:"cc"`
-	Steps []stepObs  `json:"steps"`
-	Post  postObs    `json:"post"`
+	T      string     `json:"t"`
+	Kind   string     `json:"kind"`
+	Expr   *Expr      `json:"expr"`
+	List   []item     `json:"list"`
+	Fe     []feExpect `json:"fe"`
+	Nil    bool       `json:"nil"`
+	Cc     []call     `json:"cc"`
+	Steps  []stepObs  `json:"steps"`
+	Post   postObs    `json:"post"`
+	Repoll string     `json:"repoll"`
 }
 
 type finding struct {
@@ -140,6 +141,10 @@ func judgeCase(ci int, c *genCase, out *vio.Out, st *replayStats) {
 	}
 	if !c.Nil && !c.Post.eq(o.Post) {
 		emit("drift", "Exhausted", 0, c.Post, o.Post)
+		return
+	}
+	if c.Repoll != o.Repoll {
+		emit("drift", "PolledAgain", 0, c.Repoll, o.Repoll)
 	}
 }
 
